@@ -23,7 +23,7 @@ def scal(f, k, j, i):
 
 
 def make_roms(fname, *, imax, jmax, N, times, mask=None, h=None, dx=128.0, dy=None, hc=0.0, Cs_r=None, Cs_w=None,
-              lon=None, lat=None, U=None, V=None, S=None, W=None, pack=None, spack=None, Vtransform=None,
+              lon=None, lat=None, U=None, V=None, S=None, W=None, pack=None, spack=None, Vtransform=None, landfill=None,
               t0="2000-01-01 00:00:00", with_vertical=True):
     """Write a ROMS-like file.  U: (nt, N, jmax, imax-1), V: (nt, N, jmax-1, imax), S: (nt, N, jmax, imax),
     W: (nt, N+1, jmax, imax) in m/s (float) ; pack = scale_factor for int16 packing of u, v ;
@@ -61,6 +61,18 @@ def make_roms(fname, *, imax, jmax, N, times, mask=None, h=None, dx=128.0, dy=No
                 mk("Vtransform", (), Vtransform, "i4")
         U = np.zeros((nt, N, jmax, imax - 1)) if U is None else U
         V = np.zeros((nt, N, jmax - 1, imax)) if V is None else V
+        if landfill is not None and not pack and mask is not None:
+            # as in real ROMS files: velocity points on or next to land hold the fill value (they must be masked, not interpolated).
+            # landfill = (value, [i0, i1, j0, j1]): only faces between two cells of the loaded rectangle are filled - LADiM decides
+            # the faces on the rim of the rectangle from the inside cell alone, and what it reads there lies outside the valid region
+            val, (a0, a1, b0, b1) = landfill
+            m = np.asarray(mask) > 0
+            inside = np.zeros_like(m)
+            inside[b0:b1, a0:a1] = True
+            fu = ~(m[:, :-1] & m[:, 1:]) & inside[:, :-1] & inside[:, 1:]
+            fv = ~(m[:-1, :] & m[1:, :]) & inside[:-1, :] & inside[1:, :]
+            U = np.where(fu[None, None], val, U)
+            V = np.where(fv[None, None], val, V)
         if pack:
             # pack = scale | (scale_u, scale_v) | (scale_u, scale_v, mode): mode "both" writes scale_factor and add_offset = 0,
             # "sf_only" writes no add_offset attribute at all (CF: it defaults to 0), "offset" packs around a non-zero offset
